@@ -358,11 +358,16 @@ func (e *Env) lookupLocal(name string) (tval, bool) {
 		return tval{}, false
 	}
 	// local variable cells
+	var otherPath *ssa.Alloc
 	for _, b := range fn.Blocks {
 		for _, in := range b.Instrs {
 			if a, ok := in.(*ssa.Alloc); ok && a.Comment == name {
 				if e.loop == nil && e.at != nil && !(b == e.at || b.Dominates(e.at)) {
-					continue // a variable of the same name on another path
+					// a variable of this name on another path: used only if nothing reaches this point
+					if _, ok := fr.regs[a]; ok && otherPath == nil {
+						otherPath = a
+					}
+					continue
 				}
 				if c, ok := fr.regs[a]; ok {
 					et, _ := deref(a.Type())
@@ -413,6 +418,10 @@ func (e *Env) lookupLocal(name string) (tval, bool) {
 		if bestV != nil {
 			return tval{T: bestV.Type(), C: fr.val(bestV)}, true
 		}
+	}
+	if otherPath != nil {
+		et, _ := deref(otherPath.Type())
+		return e.load(fr.regs[otherPath], et, e.st), true
 	}
 	// SSA registers named through debug info
 	var best ssa.Value
